@@ -525,6 +525,32 @@ func (cc *checkCtx) runAccessScans() {
 								offenders[key] = cc.posOfIns(ins)
 							}
 						}
+					case "callers":
+						ci, ok := ins.(ssa.CallInstruction)
+						if !ok {
+							continue
+						}
+						callee := ci.Common().StaticCallee()
+						if callee == nil {
+							// the function used as a value (closure, method value) counts as a call site too
+							hit := false
+							for _, op := range ins.Operands(nil) {
+								if op != nil && *op != nil {
+									if f, isF := (*op).(*ssa.Function); isF && e.keyOf(f) == as.Field {
+										hit = true
+									}
+								}
+							}
+							if !hit {
+								continue
+							}
+						} else if e.keyOf(callee) != as.Field {
+							continue
+						}
+						nsites++
+						if !allowed[key] {
+							offenders[key] = cc.posOfIns(ins)
+						}
 					case "mapranges":
 						rg, ok := ins.(*ssa.Range)
 						if !ok {
